@@ -63,7 +63,7 @@ CHECKS = {
          "AsyncFIFO / ClockDomainCrossing (depths 4/8/16, buffered or not, common reset with pulses), AXILiteClockDomainCrossing (window reference memory), stream.Monitor in another domain and BusSynchronizer (widths 1..16, ratio-bounded R=1..3, two timeouts) run under random per-domain edge probabilities; every synchroniser first flop sampled in the instant its input changes resolves each changing bit to old or new. Accepted and delivered token lists must be equal (a subsequence across resets), the bus synchroniser may only output words its input held, and must reflect a stable input.",
          "trusted: simulator, fault model in lib/bench/faults.py (metastability only at declared synchronisers), BFMs", "4 C05"),
  "C14": ("exploration", "accessor replay on the simulated SoC: published addresses and parsed accessor bodies are executed access by access through a bus master while the registers' own signals and the Memory arrays are observed; cross-format comparison; memory-image lane check",
-         "CPU-less SoCCore configurations (bus standard x width x interconnect x CSR width x ordering x paging, random peripherals, CSR memories, ROM/SRAM/main RAM) are finalised; JSON/CSV/header/SVD/mem.h are produced by the export functions and through Builder's own generation methods; every published register is written and read exactly as its generated accessor does and must change/return exactly that register; memory regions and CSR memory windows are located in the Memory arrays; get_mem_data images are checked byte-lane-wise for both endiannesses and data widths. Interrupt numbers are not covered (no CPU in the simulated SoC).",
+         "CPU-less SoCCore configurations (bus standard x width x interconnect x CSR width x ordering x paging, random peripherals, CSR memories, ROM/SRAM/main RAM) are finalised; JSON/CSV/header/SVD/mem.h are produced by the export functions and through Builder's own generation methods; every published register is written and read exactly as its generated accessor does and must change/return exactly that register; memory regions and CSR memory windows are located in the Memory arrays; get_mem_data images are checked byte-lane-wise for both endiannesses and data widths. A quarter of the SoCs carry a core-less CPU stub (interrupt vector + idle bus masters) so that the IRQ handler is enabled: peripherals with EventManagers get fixed or allocated interrupt numbers, the numbers published in JSON/CSV/soc.h must agree, and each event raised through the real EventManager must show on exactly the published bit of the CPU's interrupt vector and be released through the published pending accessor.",
          "trusted: simulator, accessor parser in props/c14.py, csr_read_simple/csr_write_simple modelled as 32-bit accesses", "4 C14"),
 }
 
